@@ -70,6 +70,8 @@ type BufConn struct {
 	rd, wr *half
 	name   string
 	peer   *BufConn
+	// Local, when set, is returned by LocalAddr (some servers require a *net.TCPAddr).
+	Local net.Addr
 }
 
 // Peer returns the other end.
@@ -184,7 +186,12 @@ func (c *BufConn) Close() error {
 	return nil
 }
 
-func (c *BufConn) LocalAddr() net.Addr  { return bufAddr(c.name) }
+func (c *BufConn) LocalAddr() net.Addr {
+	if c.Local != nil {
+		return c.Local
+	}
+	return bufAddr(c.name)
+}
 func (c *BufConn) RemoteAddr() net.Addr { return bufAddr("peer-of-" + c.name) }
 
 func (c *BufConn) SetDeadline(t time.Time) error {
